@@ -28,9 +28,26 @@ pub fn behavior_from(s: &str) -> ModificationBehavior {
 }
 
 /// entries: [[scope, behaviour, namehex, valuehex], ...] inserted in the given order.
+/// A name whose conversion into an OsString panics (the caller's `Into<OsString>` implementation does): the insert never happens.
+struct PanickingName;
+impl From<PanickingName> for std::ffi::OsString {
+    fn from(_: PanickingName) -> Self {
+        panic!("vp-scripted-conversion-panic")
+    }
+}
+
 pub fn layer_env_from(entries: &[Value]) -> LayerEnv {
+    static HOOK: std::sync::Once = std::sync::Once::new();
+    HOOK.call_once(|| {
+        let default = std::panic::take_hook();
+        std::panic::set_hook(Box::new(move |info| {
+            if !info.to_string().contains("vp-scripted-conversion-panic") {
+                default(info);
+            }
+        }));
+    });
     let mut le = LayerEnv::new();
-    for e in entries {
+    for (i, e) in entries.iter().enumerate() {
         let e = e.as_array().expect("entry");
         le.insert(
             scope_from(e[0].as_str().unwrap()),
@@ -38,6 +55,14 @@ pub fn layer_env_from(entries: &[Value]) -> LayerEnv {
             os_from_hex(e[2].as_str().unwrap()),
             os_from_hex(e[3].as_str().unwrap()),
         );
+        if i % 3 == 1 {
+            // an insert for the same scope that never completes (the conversion of its name panics; the panic is caught, the way a worker
+            // thread's panic is): the entries inserted before it are still there, it contributes nothing
+            let scope = scope_from(e[0].as_str().unwrap());
+            let behaviour = behavior_from(e[1].as_str().unwrap());
+            let caught = std::panic::catch_unwind(std::panic::AssertUnwindSafe(|| le.insert(scope, behaviour, PanickingName, "never inserted")));
+            assert!(caught.is_err());
+        }
     }
     le
 }
